@@ -270,6 +270,24 @@ func TestC14(t *testing.T) {
 
 	// ECH: accepted -> verify against the secret name; rejected -> against the public name
 	echTargets := echCapableTargets()
+	// the same parrots as hand-written specs whose server_name extension names a host of the
+	// caller's choosing (a fronting name): with ECH the outer name is the public name anyway,
+	// and that is the name a rejected offer is verified against
+	for _, pn := range []string{"Chrome_120", "Firefox_120"} {
+		p := ParrotByName(pn)
+		echTargets = append(echTargets, Target{Name: p.Name + "+named-sni-spec", Spec: func() (*tls.ClientHelloSpec, error) {
+			sp, err := tls.UTLSIdToSpec(p.ID)
+			if err != nil {
+				return nil, err
+			}
+			for _, e := range sp.Extensions {
+				if sn, ok := e.(*tls.SNIExtension); ok {
+					sn.ServerName = "front.example.test"
+				}
+			}
+			return &sp, nil
+		}})
+	}
 	type ejob struct {
 		t      Target
 		reject bool
